@@ -5,6 +5,7 @@ package spy
 import (
 	"crypto/rand"
 	"errors"
+	"fmt"
 	"io"
 	"sync"
 
@@ -111,22 +112,35 @@ type SecretFactory struct {
 	C        *Classifier
 	// FailedNew retains the buffers passed to a New call that was made to fail before copying
 	FailedNew [][]byte
+	// RelFailAt >= 0: the RelFailAt-th WithBytesFunc of the current operation behaves like the real secure-memory implementations when the
+	// protection change after the callback fails: it returns the callback's result TOGETHER WITH an error
+	RelFailAt int
+	withN     int
+}
+
+var ErrRelease = errors.New("unable to mark memory as no-access: injected fault")
+
+// ResetOp starts a new operation (numbering of WithBytesFunc calls, planned release failure).
+func (f *SecretFactory) ResetOp(relFailAt int) {
+	f.mu.Lock()
+	f.withN, f.RelFailAt = 0, relFailAt
+	f.mu.Unlock()
 }
 
 type Secret struct {
-	f      *SecretFactory
-	Random bool // created by CreateRandom (a freshly generated key)
-	ID     int
-	b      []byte
-	closed bool
-	Closes int
+	f             *SecretFactory
+	Random        bool // created by CreateRandom (a freshly generated key)
+	ID            int
+	b             []byte
+	closed        bool
+	Closes        int
 	UseAfterClose int
 }
 
 var ErrSecretClosed = errors.New("secret has already been destroyed")
 
 func NewSecretFactory(t *Trace, f *Faults) *SecretFactory {
-	return &SecretFactory{T: t, F: f, KeyIndex: map[string]int{}}
+	return &SecretFactory{T: t, F: f, KeyIndex: map[string]int{}, RelFailAt: -1}
 }
 
 func (f *SecretFactory) add(b []byte, random bool) *Secret {
@@ -267,11 +281,21 @@ func (s *Secret) WithBytesFunc(action func([]byte) ([]byte, error)) ([]byte, err
 		return nil, ErrSecretClosed
 	}
 	b := s.b
+	fail := s.f.RelFailAt >= 0 && s.f.withN == s.f.RelFailAt
+	s.f.withN++
 	s.f.mu.Unlock()
 	if !s.f.Quiet {
 		s.f.T.Add("SWith", s.ID)
 	}
-	return action(b)
+	ret, err := action(b)
+	if fail {
+		if err == nil {
+			err = ErrRelease
+		} else {
+			err = fmt.Errorf("%v: %w", err, ErrRelease)
+		}
+	}
+	return ret, err
 }
 
 func (s *Secret) IsClosed() bool {
